@@ -71,6 +71,63 @@ func (e *Engine) checkC14() []*Obligation {
 			}
 		}
 	}
+	// the payload encoding: encodePayload must hand its argument to json.Marshal as it is (JSON
+	// keeps names, values, list structure and types apart; a hand-made rendering such as
+	// fmt.Sprint does not: ["a b"] and ["a","b"] would collide)
+	for _, f := range pkg.Syntax {
+		for _, d := range f.Decls {
+			fd, ok := d.(*ast.FuncDecl)
+			if !ok || fd.Body == nil || fd.Name.Name != "encodePayload" || fd.Type.Params == nil || len(fd.Type.Params.List) != 1 || len(fd.Type.Params.List[0].Names) != 1 {
+				continue
+			}
+			param := info.ObjectOf(fd.Type.Params.List[0].Names[0])
+			direct, other := false, ""
+			ast.Inspect(fd.Body, func(n ast.Node) bool {
+				call, ok := n.(*ast.CallExpr)
+				if !ok {
+					return true
+				}
+				isMarshal := false
+				if se, ok := call.Fun.(*ast.SelectorExpr); ok {
+					if id, ok := se.X.(*ast.Ident); ok && id.Name == "json" && se.Sel.Name == "Marshal" {
+						isMarshal = true
+					}
+				}
+				for _, a := range call.Args {
+					for _, o := range identsIn(info, a) {
+						if o != param {
+							continue
+						}
+						if id, ok := ast.Unparen(a).(*ast.Ident); ok && isMarshal && info.ObjectOf(id) == param && len(call.Args) == 1 {
+							direct = true
+						} else {
+							other = posOf(pkg, call.Pos())
+						}
+					}
+				}
+				return true
+			})
+			// any other use of the parameter (ranging over it, indexing it) also counts as processing
+			uses := 0
+			ast.Inspect(fd.Body, func(n ast.Node) bool {
+				if id, ok := n.(*ast.Ident); ok && info.ObjectOf(id) == param {
+					uses++
+				}
+				return true
+			})
+			o := &Obligation{Name: "main.encodePayload/marshals-argument-directly", Kind: "reads-frame", Func: "main.encodePayload", Pos: posOf(pkg, fd.Pos()),
+				Text:  "encodePayload passes the tuple list to json.Marshal unchanged and does nothing else with it",
+				Props: []string{"C14"}}
+			if direct && other == "" && uses == 1 {
+				o.Decided = "discharged"
+				o.Result = SolverResult{Status: "unsat", Solver: "def-use"}
+			} else {
+				o.Decided = "failed"
+				o.Result = SolverResult{Status: "sat", Solver: "def-use", Raw: fmt.Sprintf("the payload list is used %d time(s) in encodePayload; json.Marshal(list) directly: %v; other call with it at %q", uses, direct, other)}
+			}
+			obls = append(obls, o)
+		}
+	}
 	sort.Strings(keys)
 	for _, name := range keys {
 		fd := decls[name]
